@@ -156,10 +156,10 @@ PROPS["C04"] = {
     "level": "model_checking",
     "harness": ["C04_"],
     "tiers": {
-        "quick": {"timeout": "20s", "maxsteps": 12000000, "bounds": "every byte string of length 1..3 (all 256 values per byte) as script source and as module body; scanner progress on every byte string of length 1..3; 4 seed programs with one arbitrary byte replaced or inserted at every position; 20 templates x 17 identifier substitutions x 13 statement substitutions x 4 configurations (module maps, predeclared variables)", "cross": 2},
-        "thorough": {"timeout": "60s", "maxsteps": 12000000, "bounds": "byte strings of length 1..4; 10 seed programs with one arbitrary byte replaced/inserted; templates as quick", "cross": 3},
+        "quick": {"timeout": "20s", "maxsteps": 12000000, "bounds": "every byte string of length 1..3 (all 256 values per byte) as script source, 1..2 as module body; scanner progress on every byte string of length 1..2; 4 seed programs with one arbitrary byte replaced or inserted at every position; 7 templates whose identifier is 1..4 arbitrary identifier-shaped bytes; 20 templates x 17 identifier substitutions x 13 statement substitutions x 4 configurations (module maps, predeclared variables)", "cross": 2},
+        "thorough": {"timeout": "60s", "maxsteps": 12000000, "bounds": "byte strings of length 1..4 (module body 1..3); 10 seed programs with one arbitrary byte replaced/inserted; templates as quick", "cross": 3},
     },
-    "reach": {"C04_Bytes": ["bytes"], "C04_ModuleBody": ["module"], "C04_SeedHole": ["seedhole"], "C04_Templates": ["templates"], "C04_ScannerProgress": ["scanner"]},
+    "reach": {"C04_Bytes": ["bytes"], "C04_ModuleBody": ["module"], "C04_SeedHole": ["seedhole"], "C04_Templates": ["templates"], "C04_ScannerProgress": ["scanner"], "C04_SymIdent": ["symident"]},
     "assumptions": [
         "unicode.IsLetter/IsDigit/IsSpace on a symbolic (non-ASCII) rune are uninterpreted predicates of the rune (over-approximation, sound for totality; counterexamples are replayed natively)",
         "the template family is a finite-domain case split (no wide variable); the byte families are decided for all 256 values of every byte",
